@@ -1,8 +1,751 @@
-(** * Val/CoerceProofs.v — C05: proofs about the coercion model. *)
+(** * Val/CoerceProofs.v — C05: proofs about the coercion model (CoerceModel.v) against the
+    reference semantics (CoerceSpec.v). *)
 From Coq Require Import List NArith ZArith Bool Lia.
-From ApiFu Require Import Base.Sexp Val.Values Val.CoerceModel Val.CoerceSpec.
+From ApiFu Require Import Base.Sexp Val.Values Val.MapFacts Val.CoerceModel Val.CoerceSpec.
 Import ListNotations.
 
-Lemma placeholder_null_literal : forall fx E dt vv t a,
-  coerce_literal fx E dt vv LNull t a = (if is_nonnull t then Err else Ok GNil).
-Proof. intros. destruct t; reflexivity. Qed.
+(** ** induction principles for the nested value types *)
+Section JvalInd.
+  Variable P : jval -> Prop.
+  Hypothesis HNull : P JNull.
+  Hypothesis HBool : forall b, P (JBool b).
+  Hypothesis HNum : forall d, P (JNum d).
+  Hypothesis HInt : forall z, P (JInt z).
+  Hypothesis HStr : forall s, P (JStr s).
+  Hypothesis HList : forall l, Forall P l -> P (JList l).
+  Hypothesis HObj : forall kvs, Forall (fun p => P (snd p)) kvs -> P (JObj kvs).
+  Hypothesis HOther : P JOther.
+  Fixpoint jval_ind' (j : jval) : P j :=
+    match j with
+    | JNull => HNull
+    | JBool b => HBool b
+    | JNum d => HNum d
+    | JInt z => HInt z
+    | JStr s => HStr s
+    | JList l => HList l ((fix go (l : list jval) : Forall P l :=
+                             match l with [] => Forall_nil _ | x :: r => Forall_cons _ (jval_ind' x) (go r) end) l)
+    | JObj kvs => HObj kvs ((fix go (l : list (name * jval)) : Forall (fun p => P (snd p)) l :=
+                               match l with [] => Forall_nil _ | p :: r => Forall_cons _ (jval_ind' (snd p)) (go r) end) kvs)
+    | JOther => HOther
+    end.
+End JvalInd.
+
+Section LitInd.
+  Variable P : lit -> Prop.
+  Hypothesis HVar : forall n, P (LVar n).
+  Hypothesis HInt : forall z, P (LInt z).
+  Hypothesis HFloat : forall m k, P (LFloat m k).
+  Hypothesis HString : forall s, P (LString s).
+  Hypothesis HBool : forall b, P (LBool b).
+  Hypothesis HNull : P LNull.
+  Hypothesis HEnum : forall n, P (LEnum n).
+  Hypothesis HList : forall l, Forall P l -> P (LList l).
+  Hypothesis HObj : forall fs, Forall (fun p => P (snd p)) fs -> P (LObject fs).
+  Fixpoint lit_ind' (l : lit) : P l :=
+    match l with
+    | LVar n => HVar n
+    | LInt z => HInt z
+    | LFloat m k => HFloat m k
+    | LString s => HString s
+    | LBool b => HBool b
+    | LNull => HNull
+    | LEnum n => HEnum n
+    | LList vs => HList vs ((fix go (l : list lit) : Forall P l :=
+                               match l with [] => Forall_nil _ | x :: r => Forall_cons _ (lit_ind' x) (go r) end) vs)
+    | LObject fs => HObj fs ((fix go (l : list (name * lit)) : Forall (fun p => P (snd p)) l :=
+                                match l with [] => Forall_nil _ | p :: r => Forall_cons _ (lit_ind' (snd p)) (go r) end) fs)
+    end.
+End LitInd.
+
+(** ** small facts *)
+Lemma default_value_ref d : default_value d = ref_default d.
+Proof. destruct d; reflexivity. Qed.
+
+Lemma f64_eqb_refl d : f64_eqb d d = true.
+Proof. unfold f64_eqb. rewrite !Z.eqb_refl. reflexivity. Qed.
+
+Lemma gval_eqb_refl : forall g, gval_eqb g g = true.
+Proof.
+  fix IH 1. intros g; destruct g as [| |z|z|d|s|b|c|vs|kvs|t v|]; simpl.
+  - reflexivity.
+  - reflexivity.
+  - apply Z.eqb_refl.
+  - apply Z.eqb_refl.
+  - apply f64_eqb_refl.
+  - apply bytes_eqb_refl.
+  - apply Bool.eqb_reflx.
+  - apply bytes_eqb_refl.
+  - induction vs as [|x r IHr]; [reflexivity|]. rewrite IH, IHr; reflexivity.
+  - induction kvs as [|[k x] r IHr]; [reflexivity|]. rewrite bytes_eqb_refl, IH, IHr; reflexivity.
+  - rewrite bytes_eqb_refl, IH; reflexivity.
+  - reflexivity.
+Qed.
+
+Lemma dup_names_has_dup l : dup_names l = has_dup l.
+Proof. induction l as [|x r IH]; simpl; [reflexivity|]. rewrite IH; reflexivity. Qed.
+
+Lemma nodup_aget {A} (l : list (name * A)) k v :
+  dup_names (map fst l) = false -> In (k, v) l -> aget k l = Some v.
+Proof.
+  induction l as [|[k' v'] r IH]; simpl; intros D []; subst.
+  - inversion H; subst. rewrite bytes_eqb_refl; reflexivity.
+  - apply orb_false_iff in D as [D1 D2].
+    destruct (bytes_eqb k k') eqn:B.
+    + apply bytes_eqb_eq in B; subst k'. exfalso.
+      assert (X : existsb (bytes_eqb k) (map fst r) = true).
+      { apply existsb_exists. exists k. split; [|apply bytes_eqb_refl]. change k with (fst (k, v)). apply in_map; auto. }
+      congruence.
+    + apply IH; auto.
+Qed.
+
+(** ** res_map *)
+Lemma res_map_Forall {A} (f : A -> res gval) (P : A -> Prop) (Q : gval -> Prop) l cs :
+  Forall P l -> (forall x c, P x -> f x = Ok c -> Q c) -> res_map f l = Ok cs -> Forall Q cs.
+Proof.
+  intros HP HQ. revert cs. induction HP as [|x r Hx Hr IH]; simpl; intros cs H.
+  - inversion H; constructor.
+  - destruct (f x) eqn:Fx; try discriminate. destruct (res_map f r) eqn:Fr; try discriminate.
+    inversion H; subst. constructor; eauto.
+Qed.
+
+(** ** fold_left over a [res] accumulator *)
+Section FoldRes.
+  Context {A B : Type}.
+  Variable step : res A -> B -> res A.
+  Hypothesis step_err : forall b, step Err b = Err.
+  Hypothesis step_panic : forall b, step Panic b = Panic.
+
+  Lemma fold_res_err l : fold_left step l Err = Err.
+  Proof. induction l; simpl; auto. rewrite step_err; auto. Qed.
+  Lemma fold_res_panic l : fold_left step l Panic = Panic.
+  Proof. induction l; simpl; auto. rewrite step_panic; auto. Qed.
+
+  Lemma fold_res_inv (Inv : list B -> A -> Prop) l : forall pre a0 a,
+    Inv pre a0 ->
+    (forall pre' b a1 a2, Inv pre' a1 -> In b l -> step (Ok a1) b = Ok a2 -> Inv (pre' ++ [b]) a2) ->
+    fold_left step l (Ok a0) = Ok a -> Inv (pre ++ l) a.
+  Proof.
+    induction l as [|b r IH]; simpl; intros pre a0 a H0 Hs H.
+    - inversion H; subst. rewrite app_nil_r; auto.
+    - destruct (step (Ok a0) b) as [a1| |] eqn:S.
+      + replace (pre ++ b :: r) with ((pre ++ [b]) ++ r) by (rewrite <- app_assoc; reflexivity).
+        apply (IH (pre ++ [b]) a1 a).
+        * eapply Hs; eauto.
+        * intros pre' b' a1' a2' Hi Hin Hst. eapply Hs; eauto.
+        * exact H.
+      + rewrite fold_res_err in H; discriminate.
+      + rewrite fold_res_panic in H; discriminate.
+  Qed.
+End FoldRes.
+
+Section FoldOpt.
+  Context {A B : Type}.
+  Variable step : option A -> B -> option A.
+  Hypothesis step_none : forall b, step None b = None.
+  Lemma fold_opt_none l : fold_left step l None = None.
+  Proof. induction l; simpl; auto. rewrite step_none; auto. Qed.
+  Lemma fold_opt_inv (Inv : list B -> A -> Prop) l : forall pre a0 a,
+    Inv pre a0 ->
+    (forall pre' b a1 a2, Inv pre' a1 -> In b l -> step (Some a1) b = Some a2 -> Inv (pre' ++ [b]) a2) ->
+    fold_left step l (Some a0) = Some a -> Inv (pre ++ l) a.
+  Proof.
+    induction l as [|b r IH]; simpl; intros pre a0 a H0 Hs H.
+    - inversion H; subst. rewrite app_nil_r; auto.
+    - destruct (step (Some a0) b) as [a1|] eqn:S.
+      + replace (pre ++ b :: r) with ((pre ++ [b]) ++ r) by (rewrite <- app_assoc; reflexivity).
+        apply (IH (pre ++ [b]) a1 a).
+        * eapply Hs; eauto.
+        * intros pre' b' a1' a2' Hi Hin Hst. eapply Hs; eauto.
+        * exact H.
+      + rewrite fold_opt_none in H; discriminate.
+  Qed.
+End FoldOpt.
+
+Lemma var_field_step_err subs b : var_field_step subs Err b = Err. Proof. reflexivity. Qed.
+Lemma var_field_step_panic subs b : var_field_step subs Panic b = Panic. Proof. reflexivity. Qed.
+Lemma lit_default_step_err b : lit_default_step Err b = Err. Proof. reflexivity. Qed.
+Lemma lit_default_step_panic b : lit_default_step Panic b = Panic. Proof. reflexivity. Qed.
+
+(** ** unfolding equations *)
+Section Equations.
+  Variable fx : fixes.
+  Variable E : env.
+  Variable dt : bytes -> option bytes.
+
+  Lemma cvv_eq j t a : coerce_var_value fx E dt j t a =
+    match j with
+    | JNull => if is_nonnull t then Err else Ok GNil
+    | _ =>
+        match t with
+        | StNonNull t' => coerce_var_value fx E dt j t' (if fix_nn_flag fx then a else true)
+        | StList t' =>
+            match j with
+            | JList items => res_list (res_map (fun v => coerce_var_value fx E dt v t' false) items)
+            | _ => if a then match coerce_var_value fx E dt j t' true with
+                             | Ok c => Ok (GList [c]) | Err => Err | Panic => Panic end
+                   else Err
+            end
+        | StNamed n =>
+            match aget n E with
+            | Some (TScalar k) => of_option (scalar_variable fx dt k j)
+            | Some (TEnum vals) => enum_variable vals j
+            | Some (TInput fields h) =>
+                match j with
+                | JObj kvs =>
+                    match fold_left (var_field_step (map (fun p => match p with (k, jv) => (k, coerce_var_value fx E dt jv) end) kvs))
+                                    fields (Ok []) with
+                    | Ok result => if forallb (fun p => ahas (fst p) fields) kvs then apply_hook h result else Err
+                    | Err => Err
+                    | Panic => Panic
+                    end
+                | _ => Err
+                end
+            | None => Panic
+            end
+        end
+    end.
+  Proof. destruct j; destruct t; reflexivity. Qed.
+
+  Lemma cl_eq vv l t a : coerce_literal fx E dt vv l t a =
+    match l with
+    | LNull => if is_nonnull t then Err else Ok GNil
+    | _ =>
+        match (match l with LVar n => aget n vv | _ => None end) with
+        | Some value => if fix_null_var fx && is_nil value && is_nonnull t then Err else Ok value
+        | None =>
+            match t with
+            | StNonNull t' => coerce_literal fx E dt vv l t' (if fix_nn_flag fx then a else true)
+            | StList t' =>
+                match l with
+                | LList vs => res_list (res_map (fun v => coerce_literal fx E dt vv v t' false) vs)
+                | _ => if a then match coerce_literal fx E dt vv l t' true with
+                                 | Ok c => Ok (GList [c]) | Err => Err | Panic => Panic end
+                       else Err
+                end
+            | StNamed n =>
+                match aget n E with
+                | Some (TScalar k) => of_option (scalar_literal dt k l)
+                | Some (TEnum vals) => enum_literal vals l
+                | Some (TInput fields h) =>
+                    match l with
+                    | LObject fs =>
+                        match lit_fields_loop (coerce_literal fx E dt vv) vv fields fs [] with
+                        | Ok result =>
+                            match fold_left lit_default_step fields (Ok result) with
+                            | Ok result' => apply_hook h result'
+                            | Err => Err
+                            | Panic => Panic
+                            end
+                        | Err => Err
+                        | Panic => Panic
+                        end
+                    | _ => Err
+                    end
+                | None => Panic
+                end
+            end
+        end
+    end.
+  Proof. destruct l; destruct t; reflexivity. Qed.
+
+  Lemma conforms_eq g t : conforms E g t =
+    match g with
+    | GNil => negb (is_nonnull t)
+    | _ =>
+        match t with
+        | StNonNull t' => conforms E g t'
+        | StList t' => match g with GList items => forallb (fun x => conforms E x t') items | _ => false end
+        | StNamed n =>
+            match aget n E with
+            | Some (TScalar k) => scalar_conforms k g
+            | Some (TEnum vals) => existsb (fun p => gval_eqb (snd p) g) vals
+            | Some (TInput fields h) =>
+                match h, g with
+                | HNone, GMap kvs => map_ok (conforms E) fields kvs
+                | HWrap tag, GTagged tag' (GMap kvs) => bytes_eqb tag tag' && map_ok (conforms E) fields kvs
+                | _, _ => false
+                end
+            | None => false
+            end
+        end
+    end.
+  Proof. destruct g; destruct t; reflexivity. Qed.
+End Equations.
+
+(** ** conformance of what the coercion functions return *)
+Section Conform.
+  Variable fx : fixes.
+  Variable E : env.
+  Variable dt : bytes -> option bytes.
+  Hypothesis HE : env_ok E = true.
+
+  Lemma env_ok_lookup n td : aget n E = Some td -> tdef_ok E td = true.
+  Proof.
+    intro H. apply aget_In in H. unfold env_ok in HE. rewrite forallb_forall in HE.
+    apply (HE (n, td)); auto.
+  Qed.
+
+  Lemma in_range_within lo hi z : in_range lo hi z = within lo hi z.
+  Proof. reflexivity. Qed.
+
+  Lemma scalar_variable_conforms k j g :
+    jval_ok j = true -> scalar_variable fx dt k j = Some g -> scalar_conforms k g = true /\ g <> GNil.
+  Proof.
+    intros W H.
+    destruct k; destruct j; cbn [scalar_variable coerce_int coerce_float coerce_long_int is_jbool andb] in H;
+      repeat match type of H with
+        | context [if ?c then _ else _] => destruct c eqn:?
+        | context [match f64_to_Z ?d with _ => _ end] => destruct (f64_to_Z d) eqn:?
+        | context [option_map _ ?o] => destruct o eqn:?; cbn [option_map] in H
+        end;
+      try discriminate; inversion H; subst; cbn [scalar_conforms]; split; try discriminate; auto.
+  Qed.
+
+  Lemma scalar_literal_conforms k l g :
+    scalar_literal dt k l = Some g -> scalar_conforms k g = true /\ g <> GNil.
+  Proof.
+    intros H.
+    destruct k; destruct l; cbn [scalar_literal] in H;
+      repeat match type of H with
+        | context [if ?c then _ else _] => destruct c eqn:?
+        | context [option_map _ ?o] => destruct o eqn:?; cbn [option_map] in H
+        end;
+      try discriminate; inversion H; subst; cbn [scalar_conforms]; split; try discriminate; auto.
+    all: match goal with Hq : _ && _ = true |- _ => apply andb_true_iff in Hq as [_ Hs]; exact Hs end.
+  Qed.
+
+  Lemma enum_value_conforms vals n g :
+    forallb (fun p => plain_value (snd p)) vals = true -> aget n vals = Some g ->
+    existsb (fun p : name * gval => gval_eqb (snd p) g) vals = true /\ g <> GNil.
+  Proof.
+    intros Hp H. apply aget_In in H. split.
+    - apply existsb_exists. exists (n, g). split; auto. apply gval_eqb_refl.
+    - rewrite forallb_forall in Hp. specialize (Hp _ H). simpl in Hp. destruct g; try discriminate.
+  Qed.
+
+  Lemma conforms_nonnull g t : g <> GNil -> conforms E g (StNonNull t) = conforms E g t.
+  Proof. intro N. rewrite (conforms_eq E g (StNonNull t)). destruct g; auto. contradiction. Qed.
+
+  Lemma conforms_nil t : conforms E GNil t = negb (is_nonnull t).
+  Proof. rewrite conforms_eq. reflexivity. Qed.
+
+  Lemma conforms_list cs t : Forall (fun c => conforms E c t = true) cs -> conforms E (GList cs) (StList t) = true.
+  Proof. intro H. rewrite conforms_eq. apply forallb_forall. rewrite Forall_forall in H. auto. Qed.
+
+  (** *** the map an input object coercion builds *)
+  Definition entry_ok (fields : list (name * in_def)) (p : name * gval) : Prop :=
+    exists fd, aget (fst p) fields = Some fd /\ conforms E (snd p) (in_type fd) = true.
+
+  Lemma entries_ok_intro fields m : Forall (entry_ok fields) m -> entries_ok (conforms E) fields m = true.
+  Proof.
+    induction 1 as [|[k x] r [fd [Hg Hc]] _ IH]; simpl; auto.
+    simpl in Hg, Hc. rewrite Hg, Hc. exact IH.
+  Qed.
+
+  Definition built (fields : list (name * in_def)) (done : list (name * in_def)) (m : list (name * gval)) : Prop :=
+    keys_sorted m = true /\ Forall (entry_ok fields) m /\
+    forall f, In f done -> field_present m f = true.
+
+  Lemma built_map_ok fields m : built fields fields m -> map_ok (conforms E) fields m = true.
+  Proof.
+    intros (S & En & P). unfold map_ok. rewrite S, entries_ok_intro by auto. simpl.
+    apply forallb_forall; auto.
+  Qed.
+
+  Lemma field_present_mset m k v f : field_present m f = true -> field_present (mset k v m) f = true.
+  Proof.
+    unfold field_present. rewrite ahas_mset. intro H. apply orb_true_iff in H as [H|H].
+    - rewrite H, orb_true_r. reflexivity.
+    - rewrite H. apply orb_true_r.
+  Qed.
+
+  Lemma built_mset fields done m fname fd c :
+    built fields done m -> aget fname fields = Some fd -> conforms E c (in_type fd) = true ->
+    built fields (done ++ [(fname, fd)]) (mset fname c m).
+  Proof.
+    intros (S & En & P) Hg Hc. split; [|split].
+    - apply keys_sorted_mset; auto.
+    - apply Forall_mset; auto. exists fd; auto.
+    - intros f Hf. apply in_app_or in Hf as [Hf|[<-|[]]].
+      + apply field_present_mset; auto.
+      + unfold field_present. simpl. rewrite ahas_mset, bytes_eqb_refl. reflexivity.
+  Qed.
+
+  Lemma built_skip fields done m f :
+    built fields done m -> field_present m f = true -> built fields (done ++ [f]) m.
+  Proof.
+    intros (S & En & P) Hp. split; [|split]; auto.
+    intros f' Hf. apply in_app_or in Hf as [Hf|[<-|[]]]; auto.
+  Qed.
+
+  Lemma hook_conforms n fields h m g :
+    aget n E = Some (TInput fields h) -> map_ok (conforms E) fields m = true -> apply_hook h m = Ok g ->
+    conforms E g (StNamed n) = true /\ g <> GNil.
+  Proof.
+    intros Hn Hm Hh. destruct h; simpl in Hh; inversion Hh; subst; split; try discriminate.
+    - rewrite conforms_eq, Hn. exact Hm.
+    - rewrite conforms_eq, Hn. rewrite bytes_eqb_refl. exact Hm.
+  Qed.
+
+  Lemma fields_nodup n fields h : aget n E = Some (TInput fields h) -> dup_names (map fst fields) = false.
+  Proof.
+    intro H. apply env_ok_lookup in H. simpl in H. apply andb_true_iff in H as [H _].
+    apply negb_true_iff in H. exact H.
+  Qed.
+
+  Lemma fields_default_ok n fields h f :
+    aget n E = Some (TInput fields h) -> In f fields -> default_ok E (snd f) = true.
+  Proof.
+    intros H Hf. apply env_ok_lookup in H. simpl in H. apply andb_true_iff in H as [_ H].
+    rewrite forallb_forall in H. auto.
+  Qed.
+
+  (** *** values that arrive through variables *)
+  Definition var_ok (j : jval) : Prop :=
+    forall t a g, coerce_var_value fx E dt j t a = Ok g ->
+                  conforms E g t = true /\ (j <> JNull -> g <> GNil).
+
+  Lemma aget_subs (kvs : list (name * jval)) k co :
+    aget k (map (fun p => match p with (k, jv) => (k, coerce_var_value fx E dt jv) end) kvs) = Some co ->
+    exists jv, In (k, jv) kvs /\ co = coerce_var_value fx E dt jv.
+  Proof.
+    induction kvs as [|[k' jv] r IH]; simpl; intro H; try discriminate.
+    destruct (bytes_eqb k k') eqn:B.
+    - apply bytes_eqb_eq in B; subst. inversion H; subst. eauto.
+    - destruct (IH H) as (jv' & Hin & Hco). eauto.
+  Qed.
+
+  Lemma named_scalar_ok n k g : aget n E = Some (TScalar k) -> scalar_conforms k g = true -> g <> GNil ->
+    conforms E g (StNamed n) = true.
+  Proof. intros Hn Hs Hg. rewrite conforms_eq, Hn. destruct g; auto; contradiction. Qed.
+
+  Lemma named_enum_ok n vals g : aget n E = Some (TEnum vals) ->
+    existsb (fun p : name * gval => gval_eqb (snd p) g) vals = true -> g <> GNil -> conforms E g (StNamed n) = true.
+  Proof. intros Hn Hs Hg. rewrite conforms_eq, Hn. destruct g; auto; contradiction. Qed.
+
+  Ltac nn_case IHt H :=
+    let Hc := fresh "Hc" in let Hn := fresh "Hn" in
+    destruct (IHt _ _ H) as [Hc Hn]; split; [rewrite conforms_nonnull; auto; apply Hn; discriminate | exact Hn].
+
+  Ltac wrap_case j t' IHt a H :=
+    let C := fresh "C" in
+    destruct a; [|discriminate];
+    destruct (coerce_var_value fx E dt j t' true) eqn:C; inversion H; subst;
+    split; [|intros _; discriminate]; apply conforms_list; constructor; auto; apply (IHt _ _ C).
+
+  Ltac scalar_case j k Hn H :=
+    let Sv := fresh "Sv" in let Sc := fresh "Sc" in let Nn := fresh "Nn" in
+    unfold of_option in H; destruct (scalar_variable fx dt k j) eqn:Sv; inversion H; subst;
+    apply scalar_variable_conforms in Sv as [Sc Nn]; auto; split; auto; eapply named_scalar_ok; eauto.
+
+  Ltac atom_case j W :=
+    let t := fresh "t" in let n := fresh "n" in let t' := fresh "t'" in let IHt := fresh "IHt" in
+    let a := fresh "a" in let g := fresh "g" in let H := fresh "H" in
+    let k := fresh "k" in let vals := fresh "vals" in let fields := fresh "fields" in let h := fresh "h" in
+    let Hn := fresh "Hn" in
+    intros t; induction t as [n|t' IHt|t' IHt]; intros a g H; rewrite cvv_eq in H;
+    [ destruct (aget n E) as [[k|vals|fields h]|] eqn:Hn;
+      [ scalar_case j k Hn H | cbn [enum_variable] in H; try discriminate | cbn iota in H; discriminate | discriminate ]
+    | wrap_case j t' IHt a H
+    | nn_case IHt H ].
+
+  Lemma var_value_ok : forall j, jval_ok j = true -> var_ok j.
+  Proof.
+    induction j as [|b|d|z|s|l IHl|kvs IHk|] using jval_ind'; intros W.
+    - (* JNull *)
+      intros t a g H. rewrite cvv_eq in H. destruct (is_nonnull t) eqn:N; inversion H; subst.
+      split; [|congruence]. rewrite conforms_nil, N. reflexivity.
+    - atom_case (JBool b) W.
+    - atom_case (JNum d) W.
+    - atom_case (JInt z) W.
+    - atom_case (JStr s) W.
+      (* JStr at an enum *)
+      unfold of_option in H. destruct (aget s vals) eqn:Hv; inversion H; subst.
+      pose proof (env_ok_lookup _ _ Hn) as Ht. simpl in Ht.
+      destruct (enum_value_conforms _ _ _ Ht Hv). split; auto. eapply named_enum_ok; eauto.
+    - (* JList *)
+      pose proof W as W0. simpl in W. rewrite forallb_forall in W.
+      intros t; induction t as [n|t' IHt|t' IHt]; intros a g H; rewrite cvv_eq in H.
+      + destruct (aget n E) as [[k|vals|fields h]|] eqn:Hn; try discriminate.
+        scalar_case (JList l) k Hn H.
+      + destruct (res_map (fun v => coerce_var_value fx E dt v t' false) l) eqn:R; inversion H; subst.
+        split; [|intros _; discriminate]. apply conforms_list.
+        eapply res_map_Forall with (P := fun v => jval_ok v = true /\ var_ok v); [| |exact R].
+        * rewrite Forall_forall in *. intros x Hx. split; auto.
+        * intros x c [Wx Vx] Hc. apply (Vx _ _ _ Hc).
+      + nn_case IHt H.
+    - (* JObj *)
+      pose proof W as W0. simpl in W. apply andb_true_iff in W as [Wd W]. rewrite forallb_forall in W.
+      intros t; induction t as [n|t' IHt|t' IHt]; intros a g H; rewrite cvv_eq in H.
+      + destruct (aget n E) as [[k|vals|fields h]|] eqn:Hn; try discriminate.
+        * scalar_case (JObj kvs) k Hn H.
+        * match type of H with context [fold_left ?st fields (Ok [])] => destruct (fold_left st fields (Ok [])) as [result| |] eqn:F end; try discriminate.
+          destruct (forallb (fun p => ahas (fst p) fields) kvs) eqn:U; try discriminate.
+          match goal with |- ?A /\ (_ -> ?B) => cut (A /\ B); [intros [? ?]; split; auto|] end.
+          eapply hook_conforms; eauto. apply built_map_ok.
+          change fields with ([] ++ fields) at 2.
+          eapply (fold_res_inv _ (var_field_step_err _) (var_field_step_panic _) (built fields)); [| |exact F].
+          -- split; [reflexivity|split; [constructor|intros f []]].
+          -- intros pre [fname fd] m1 m2 Hb Hin Hs. cbn [var_field_step] in Hs.
+             pose proof (nodup_aget _ _ _ (fields_nodup _ _ _ Hn) Hin) as Hg.
+             destruct (aget fname _) as [co|] eqn:Hco in Hs.
+             ++ apply aget_subs in Hco as (jv & Hjv & ->).
+                destruct (coerce_var_value fx E dt jv (in_type fd) true) eqn:C; inversion Hs; subst.
+                apply built_mset; auto.
+                rewrite Forall_forall in IHk. apply (IHk (fname, jv) Hjv (W _ Hjv) _ _ _ C).
+             ++ destruct (in_default fd) eqn:D.
+                ** inversion Hs; subst. apply built_mset; auto.
+                   pose proof (fields_default_ok _ _ _ _ Hn Hin) as Hd. unfold default_ok in Hd. simpl in Hd.
+                   rewrite D in Hd. rewrite default_value_ref. exact Hd.
+                ** destruct (is_nonnull (in_type fd)) eqn:N; inversion Hs; subst.
+                   apply built_skip; auto. unfold field_present. simpl. rewrite N, D. apply orb_true_r.
+      + wrap_case (JObj kvs) t' IHt a H.
+      + nn_case IHt H.
+    - atom_case JOther W.
+  Qed.
+End Conform.
+
+Section GvalInd.
+  Variable P : gval -> Prop.
+  Hypothesis HNil : P GNil.
+  Hypothesis HSent : P GNullSentinel.
+  Hypothesis HInt : forall z, P (GInt z).
+  Hypothesis HInt64 : forall z, P (GInt64 z).
+  Hypothesis HFloat : forall d, P (GFloat d).
+  Hypothesis HString : forall s, P (GString s).
+  Hypothesis HBool : forall b, P (GBool b).
+  Hypothesis HTime : forall c, P (GTime c).
+  Hypothesis HList : forall l, Forall P l -> P (GList l).
+  Hypothesis HMap : forall kvs, Forall (fun p => P (snd p)) kvs -> P (GMap kvs).
+  Hypothesis HTagged : forall t v, P v -> P (GTagged t v).
+  Hypothesis HOther : P GOther.
+  Fixpoint gval_ind' (g : gval) : P g :=
+    match g with
+    | GNil => HNil
+    | GNullSentinel => HSent
+    | GInt z => HInt z
+    | GInt64 z => HInt64 z
+    | GFloat d => HFloat d
+    | GString s => HString s
+    | GBool b => HBool b
+    | GTime c => HTime c
+    | GList l => HList l ((fix go (l : list gval) : Forall P l :=
+                             match l with [] => Forall_nil _ | x :: r => Forall_cons _ (gval_ind' x) (go r) end) l)
+    | GMap kvs => HMap kvs ((fix go (l : list (name * gval)) : Forall (fun p => P (snd p)) l :=
+                               match l with [] => Forall_nil _ | p :: r => Forall_cons _ (gval_ind' (snd p)) (go r) end) kvs)
+    | GTagged t v => HTagged t v (gval_ind' v)
+    | GOther => HOther
+    end.
+End GvalInd.
+
+Lemma tc_eq lt vt : types_compatible lt vt =
+  match lt with
+  | StNonNull lt' => match vt with StNonNull vt' => types_compatible lt' vt' | _ => false end
+  | _ =>
+      match vt with
+      | StNonNull vt' => types_compatible lt vt'
+      | _ =>
+          match lt with
+          | StList lt' => match vt with StList vt' => types_compatible lt' vt' | _ => false end
+          | StNamed ln => match vt with StNamed vn => bytes_eqb vn ln | _ => false end
+          | StNonNull _ => false
+          end
+      end
+  end.
+Proof. destruct lt; destruct vt; reflexivity. Qed.
+
+(** a value of the variable's type is a value of every location type the validator lets the
+    variable appear at (validateVariableUsage / areTypesCompatible) *)
+Section Compat.
+  Variable E : env.
+
+  Lemma compat_conforms : forall g lt vt,
+    types_compatible lt vt = true -> conforms E g vt = true -> conforms E g lt = true.
+  Proof.
+    induction g as [| |z|z|d|s|b|c|l IHl|kvs _|tg v _|] using gval_ind'.
+    1: { (* nil: a non-null location needs a non-null variable type *)
+      intros lt; induction lt as [ln|lt' _|lt' _]; intros vt; induction vt as [vn|vt' IHv|vt' IHv];
+        intros C H; rewrite tc_eq in C; rewrite ?conforms_nil in *; simpl in *; try discriminate; auto. }
+    all: intros lt; induction lt as [ln|lt' IHlt|lt' IHlt]; intros vt; induction vt as [vn|vt' IHv|vt' IHv];
+      intros C H; rewrite tc_eq in C; try discriminate.
+    all: try (apply bytes_eqb_eq in C; subst; exact H).
+    all: try (apply IHv; auto; rewrite conforms_eq in H; exact H).
+    all: try (rewrite conforms_eq; apply IHlt with (vt := vt'); auto; rewrite conforms_eq in H; exact H).
+    all: try (rewrite conforms_eq in H; discriminate).
+    (* a list at compatible list types *)
+    rewrite conforms_eq in H. rewrite conforms_eq.
+    rewrite forallb_forall in *. rewrite Forall_forall in IHl. intros x Hx. eapply IHl; eauto.
+  Qed.
+End Compat.
+
+(** ** literals: what [coerce_literal] returns conforms, given that the variables inside were
+    accepted by the static variable-usage rule and hold values of their declared types *)
+Section LitConform.
+  Variable fx : fixes.
+  Variable E : env.
+  Variable dt : bytes -> option bytes.
+  Hypothesis HE : env_ok E = true.
+  Hypothesis Hfix : fix_null_var fx = true.
+  Hypothesis Hio : fix_item_object fx = true.
+  Variable defs : list vardef.
+  Variable vv : cvars.
+
+  Definition vv_ok : Prop :=
+    forall n g, aget n vv = Some g ->
+                exists def, find_def n defs = Some def /\ conforms E g (vd_type def) = true.
+  Hypothesis Hvv : vv_ok.
+
+  Lemma absent_var_not_ok n : aget n vv = None -> forall t a g, coerce_literal fx E dt vv (LVar n) t a <> Ok g.
+  Proof.
+    intros Hn t. induction t as [m|t' IHt|t' IHt]; intros a g H; rewrite cl_eq in H; rewrite Hn in H.
+    - destruct (aget m E) as [[k|vals|fields h]|]; try discriminate. destruct k; discriminate.
+    - destruct a; try discriminate. destruct (coerce_literal fx E dt vv (LVar n) t' true) eqn:C; try discriminate.
+      eapply IHt; eauto.
+    - eapply IHt; eauto.
+  Qed.
+
+  Lemma usage_conforms def t ld g :
+    var_usage_ok E def t ld = true -> conforms E g (vd_type def) = true ->
+    (g = GNil -> is_nonnull t = false) -> conforms E g t = true.
+  Proof.
+    unfold var_usage_ok. intros U C N. apply andb_true_iff in U as [_ U].
+    destruct t as [n|t'|t'].
+    - eapply compat_conforms; eauto.
+    - eapply compat_conforms; eauto.
+    - destruct (is_nonnull (vd_type def)) eqn:V.
+      + eapply compat_conforms; eauto.
+      + apply andb_true_iff in U as [_ U].
+        destruct g; try (rewrite conforms_eq; eapply compat_conforms; eauto; fail).
+        specialize (N eq_refl). discriminate.
+  Qed.
+
+  Definition lit_conf (l : lit) : Prop :=
+    forall t a g ld, coerce_literal fx E dt vv l t a = Ok g -> usage_ok fx E defs l (Some t) ld = true ->
+                     conforms E g t = true /\ ((forall n, l <> LVar n) -> l <> LNull -> g <> GNil).
+
+  Ltac lnn_case IHt H U ld :=
+    let Hc := fresh "Hc" in let Hn := fresh "Hn" in
+    destruct (IHt _ _ ld H U) as [Hc Hn]; split; [rewrite conforms_nonnull; auto; apply Hn; congruence | exact Hn].
+
+  Ltac lwrap_case l t' IHt a H U ld :=
+    let C := fresh "C" in
+    destruct a; [|discriminate];
+    destruct (coerce_literal fx E dt vv l t' true) eqn:C; inversion H; subst;
+    split; [|intros _ _; discriminate]; apply conforms_list; constructor; auto; apply (IHt _ _ ld C U).
+
+  Ltac lscalar_case l k Hn H :=
+    let Sv := fresh "Sv" in let Sc := fresh "Sc" in let Nn := fresh "Nn" in
+    unfold of_option in H; destruct (scalar_literal dt k l) eqn:Sv; inversion H; subst;
+    apply scalar_literal_conforms in Sv as [Sc Nn]; split; auto; eapply named_scalar_ok; eauto.
+
+  Ltac latom_case l :=
+    let t := fresh "t" in let n := fresh "n" in let t' := fresh "t'" in let IHt := fresh "IHt" in
+    let a := fresh "a" in let g := fresh "g" in let H := fresh "H" in let U := fresh "U" in let ld := fresh "ld" in
+    let k := fresh "k" in let vals := fresh "vals" in let fields := fresh "fields" in let h := fresh "h" in
+    let Hn := fresh "Hn" in
+    intros t; induction t as [n|t' IHt|t' IHt]; intros a g ld H U; rewrite cl_eq in H;
+    [ destruct (aget n E) as [[k|vals|fields h]|] eqn:Hn;
+      [ lscalar_case l k Hn H | cbn [enum_literal] in H; try discriminate | cbn iota in H; discriminate | discriminate ]
+    | lwrap_case l t' IHt a H U ld
+    | lnn_case IHt H U ld ].
+
+  Lemma lit_fields_loop_built fields fs : forall result result',
+    dup_names (map fst fields) = false ->
+    Forall (fun p => lit_conf (snd p)) fs ->
+    forallb (fun p : name * lit =>
+               match aget (fst p) fields with
+               | Some fd => usage_ok fx E defs (snd p) (Some (in_type fd)) (field_loc_default fd)
+               | None => usage_ok fx E defs (snd p) None false
+               end) fs = true ->
+    keys_sorted result = true -> Forall (entry_ok E fields) result ->
+    lit_fields_loop (coerce_literal fx E dt vv) vv fields fs result = Ok result' ->
+    keys_sorted result' = true /\ Forall (entry_ok E fields) result'.
+  Proof.
+    intros result result' Hd HF. revert result result'.
+    induction HF as [|[fname fv] r Hp _ IH]; intros result result' U S En H; simpl in H.
+    - inversion H; subst; auto.
+    - simpl in U. apply andb_true_iff in U as [U1 U2].
+      destruct (aget fname fields) as [fd|] eqn:Hg; try discriminate.
+      match type of H with (if ?c then _ else _) = _ => destruct c end.
+      + eapply IH; eauto.
+      + destruct (coerce_literal fx E dt vv fv (in_type fd) true) eqn:C; try discriminate.
+        apply (IH (mset fname a result) result' U2); [| |exact H].
+        * apply keys_sorted_mset; auto.
+        * apply Forall_mset; auto. exists fd. split; auto. simpl. apply (Hp _ _ _ _ C U1).
+  Qed.
+
+  Lemma lit_default_fold_built n fields h result result' :
+    aget n E = Some (TInput fields h) ->
+    keys_sorted result = true -> Forall (entry_ok E fields) result ->
+    fold_left lit_default_step fields (Ok result) = Ok result' ->
+    built E fields fields result'.
+  Proof.
+    intros Hn S En F.
+    change fields with ([] ++ fields) at 2.
+    eapply (fold_res_inv _ lit_default_step_err lit_default_step_panic (built E fields)); [| |exact F].
+    - split; [auto|split; [auto|intros f []]].
+    - intros pre [fname fd] m1 m2 Hb Hin Hs. cbn [lit_default_step] in Hs.
+      pose proof (nodup_aget _ _ _ (fields_nodup E HE _ _ _ Hn) Hin) as Hg.
+      destruct (aget fname m1) as [v|] eqn:G.
+      + destruct (in_default fd); (destruct (is_nil v && is_nonnull (in_type fd)); inversion Hs; subst;
+          apply built_skip; auto; unfold field_present, ahas; simpl; rewrite G; reflexivity).
+      + destruct (in_default fd) eqn:D.
+        * inversion Hs; subst. apply built_mset; auto.
+          pose proof (fields_default_ok E HE _ _ _ _ Hn Hin) as Hd. unfold default_ok in Hd. simpl in Hd.
+          rewrite D in Hd. rewrite default_value_ref. exact Hd.
+        * simpl in Hs. destruct (is_nonnull (in_type fd)) eqn:N; inversion Hs; subst.
+          apply built_skip; auto. unfold field_present. simpl. rewrite N, D. apply orb_true_r.
+  Qed.
+
+  Lemma literal_conf : forall l, lit_conf l.
+  Proof.
+    induction l as [n|z|m k|s|b| |n|vs IHl|fs IHf] using lit_ind'.
+    - (* a variable *)
+      intros t a g ld H U. destruct (aget n vv) as [value|] eqn:Hv.
+      + rewrite cl_eq, Hv, Hfix in H. simpl in H.
+        destruct (is_nil value && is_nonnull t) eqn:N; inversion H; subst.
+        split; [|intros X; exfalso; apply (X n); reflexivity].
+        cbn [usage_ok] in U. destruct (Hvv _ _ Hv) as (def & Hd & Hc). rewrite Hd in U.
+        eapply usage_conforms; eauto. intros ->. simpl in N. exact N.
+      + exfalso. eapply absent_var_not_ok; eauto.
+    - latom_case (LInt z).
+    - latom_case (LFloat m k).
+    - latom_case (LString s).
+    - latom_case (LBool b).
+    - intros t a g ld H U. rewrite cl_eq in H. destruct (is_nonnull t) eqn:N; inversion H; subst.
+      split; [|congruence]. rewrite conforms_nil, N. reflexivity.
+    - latom_case (LEnum n).
+      unfold of_option in H. destruct (aget n vals) eqn:Hv; inversion H; subst.
+      pose proof (env_ok_lookup E HE _ _ Hn) as Ht. simpl in Ht.
+      destruct (enum_value_conforms _ _ _ Ht Hv). split; auto. eapply named_enum_ok; eauto.
+    - (* a list literal *)
+      intros t; induction t as [n|t' IHt|t' IHt]; intros a g ld H U; rewrite cl_eq in H.
+      + destruct (aget n E) as [[k|vals|fields h]|] eqn:Hn; try discriminate.
+        lscalar_case (LList vs) k Hn H.
+      + destruct (res_map (fun v => coerce_literal fx E dt vv v t' false) vs) eqn:R; inversion H; subst.
+        split; [|intros _ _; discriminate]. apply conforms_list.
+        cbn [usage_ok nullable_type] in U. rewrite forallb_forall in U.
+        eapply res_map_Forall with (P := fun v => lit_conf v /\ usage_ok fx E defs v (Some t') false = true); [| |exact R].
+        * rewrite Forall_forall in *. intros x Hx. split; auto.
+        * intros x c [Lx Ux] Hc. apply (Lx _ _ _ _ Hc Ux).
+      + assert (U' : usage_ok fx E defs (LList vs) (Some t') ld = true) by exact U.
+        lnn_case IHt H U' ld.
+    - (* an object literal *)
+      intros t; induction t as [n|t' IHt|t' IHt]; intros a g ld H U; rewrite cl_eq in H.
+      + destruct (aget n E) as [[k|vals|fields h]|] eqn:Hn; try discriminate.
+        * lscalar_case (LObject fs) k Hn H.
+        * destruct (lit_fields_loop (coerce_literal fx E dt vv) vv fields fs []) as [r1| |] eqn:L1; try discriminate.
+          destruct (fold_left lit_default_step fields (Ok r1)) as [r2| |] eqn:L2; try discriminate.
+          match goal with |- ?A /\ (_ -> _ -> ?B) => cut (A /\ B); [intros [? ?]; split; auto|] end.
+          eapply hook_conforms; eauto. apply built_map_ok.
+          cbn [usage_ok] in U. rewrite Hio in U. cbn [leaf_type] in U. rewrite Hn in U.
+          destruct (lit_fields_loop_built fields fs [] r1 (fields_nodup E HE _ _ _ Hn) IHf U eq_refl (Forall_nil _) L1) as [S1 E1].
+          eapply lit_default_fold_built; eauto.
+      + assert (U' : usage_ok fx E defs (LObject fs) (Some t') ld = true).
+        { cbn [usage_ok] in *. rewrite Hio in *. exact U. }
+        lwrap_case (LObject fs) t' IHt a H U' ld.
+      + assert (U' : usage_ok fx E defs (LObject fs) (Some t') ld = true).
+        { cbn [usage_ok] in *. rewrite Hio in *. exact U. }
+        lnn_case IHt H U' ld.
+  Qed.
+End LitConform.
